@@ -97,24 +97,82 @@ const WELL_KNOWN: &[&str] = &[
 
 const NEVER: &[&str] = &["never-present", "ts_", "a.", "\u{ffff}"];
 
+/// One shared key buffer per case. When it is non-empty every key of the case is the text of a
+/// sub-slice of it (prefixes that start at the same address such as the ancestors of a dotted
+/// path, suffixes, infixes, repeated segments = equal text at different addresses), every
+/// collection that borrows its keys borrows them from the buffer, and lookups are also made
+/// with slices of the buffer. The model compares keys by content only.
+#[derive(Clone, Debug, Default)]
+struct Arena {
+    buf: String,
+}
+
+impl Arena {
+    fn new(g: &mut Rng) -> Arena {
+        let n = 1 + g.usize(4);
+        let segs: Vec<&str> = (0..n).map(|_| *g.pick(&["a", "b", "ab", "é", "日", "a", ""])).collect();
+        Arena { buf: segs.join(".") }
+    }
+
+    fn aliased(&self) -> bool {
+        !self.buf.is_empty()
+    }
+
+    fn boundaries(&self) -> Vec<usize> {
+        self.buf.char_indices().map(|(i, _)| i).chain([self.buf.len()]).collect()
+    }
+
+    /// A seeded sub-slice, biased towards slices that start at the start of the buffer.
+    fn slice(&self, g: &mut Rng) -> &str {
+        let b = self.boundaries();
+        let start = if g.chance(3, 5) { 0 } else { g.usize(b.len()) };
+        let end = start + g.usize(b.len() - start);
+        &self.buf[b[start]..b[end]]
+    }
+
+    /// The text of `key` as a slice of the buffer (the first occurrence for even salts, a seeded
+    /// occurrence otherwise) or `key` itself if the buffer does not contain it.
+    fn kref<'a>(&'a self, key: &'a str, salt: usize) -> &'a str {
+        if self.buf.is_empty() {
+            return key;
+        }
+        let n = self.buf.match_indices(key).count();
+        if n == 0 {
+            return key;
+        }
+        let nth = if salt % 2 == 0 { 0 } else { (salt / 2) % n };
+        match self.buf.match_indices(key).nth(nth) {
+            Some((at, _)) => &self.buf[at..at + key.len()],
+            None => key,
+        }
+    }
+}
+
 struct Gen {
     g: Rng,
     keys: Vec<String>,
     next: i64,
+    arena: Arena,
 }
 
 impl Gen {
     fn new(mut g: Rng) -> Gen {
         let nk = 1 + g.usize(6);
         let mut keys = Vec::new();
+        let mut arena = Arena::default();
+        if g.chance(1, 3) {
+            arena = Arena::new(&mut g);
+        }
         for _ in 0..nk {
-            if g.chance(1, 8) {
+            if arena.aliased() {
+                keys.push(arena.slice(&mut g).to_string());
+            } else if g.chance(1, 8) {
                 keys.push(g.pick(WELL_KNOWN).to_string());
             } else {
                 keys.push(g.pick(POOL).to_string());
             }
         }
-        Gen { g, keys, next: 0 }
+        Gen { g, keys, next: 0, arena }
     }
 
     fn key(&mut self) -> String {
@@ -186,6 +244,9 @@ enum Node {
     },
     OptSome(Box<Node>),
     OptNone,
+    /// an outer container of 0..=2 elements that are collections themselves (and may repeat keys):
+    /// 0: `[&dyn ErasedProps; N]`, 1: `&[&dyn ErasedProps]`, 2: `Vec<Box<dyn ErasedProps>>` as a slice
+    ArrayOf(u8, Vec<Node>),
     And(Box<Node>, Box<Node>),
     /// false: `Box<&dyn ErasedProps>`, true: `Box<dyn ErasedProps>`
     Boxed(bool, Box<Node>),
@@ -224,6 +285,9 @@ impl Node {
             Node::Traceparent { .. } => "TraceparentCtxtProps",
             Node::OptSome(_) => "Some",
             Node::OptNone => "None",
+            Node::ArrayOf(0, _) => "ArrayOfProps",
+            Node::ArrayOf(1, _) => "SliceOfProps",
+            Node::ArrayOf(..) => "VecOfBoxedProps",
             Node::And(..) => "And",
             Node::Boxed(false, _) => "Box",
             Node::Boxed(true, _) => "BoxDyn",
@@ -252,6 +316,7 @@ impl Node {
             | Node::Metric(_, _, _, a) => vec![a],
             Node::Event { own, .. } => vec![own],
             Node::And(a, b) => vec![a, b],
+            Node::ArrayOf(_, cs) => cs.iter().collect(),
             _ => vec![],
         }
     }
@@ -265,6 +330,7 @@ impl Node {
             }
             Node::Macro(e) => out.push_str(&e.len().to_string()),
             Node::Frame(_, f) => out.push_str(&f.len().to_string()),
+            Node::ArrayOf(_, cs) => out.push_str(&cs.len().to_string()),
             _ => {}
         }
         let ch = self.children();
@@ -344,7 +410,13 @@ fn gen_node(x: &mut Gen, depth: u32) -> Node {
         return gen_leaf(x);
     }
     let d = depth + 1;
-    match x.g.below(20) {
+    match x.g.below(23) {
+        20..=22 => {
+            // short outer containers: length 1 most of the time
+            let n = *x.g.pick(&[0usize, 1, 1, 1, 2]);
+            let kind = x.g.below(3) as u8;
+            Node::ArrayOf(kind, (0..n).map(|_| gen_node(x, d)).collect())
+        }
         0..=5 => Node::And(Box::new(gen_node(x, d)), Box::new(gen_node(x, d))),
         6 => Node::OptSome(Box::new(gen_node(x, d))),
         7 | 8 => Node::Boxed(x.g.bool(), Box::new(gen_node(x, d))),
@@ -434,14 +506,15 @@ impl<'a, 'b> Emitter for KEmitter<'a, 'b> {
 const MDL: Path<'static> = Path::new_raw("c02");
 
 /// Build the collection `node` describes and hand it to `k` (exactly once).
-fn with_node(node: &Node, k: K<'_>) {
+fn with_node(node: &Node, ar: &Arena, k: K<'_>) {
     match node {
         Node::Empty => k(&Empty),
-        Node::Pair(0, (key, val)) => k(&(key.as_str(), val)),
+        Node::Pair(0, (key, val)) => k(&(ar.kref(key, key.len()), val)),
         Node::Pair(1, (key, val)) => k(&(key.clone(), val.clone())),
+        Node::Pair(_, (key, val)) if ar.aliased() => k(&(Str::new_ref(ar.kref(key, key.len() + 1)), val.to_value())),
         Node::Pair(_, (key, val)) => k(&(Str::new_owned(key.clone()), val.to_value())),
         Node::Array(es) => {
-            let p = |i: usize| (es[i].0.as_str(), &es[i].1);
+            let p = |i: usize| (ar.kref(&es[i].0, i), &es[i].1);
             match es.len() {
                 0 => k(&([] as [(&str, &Val); 0])),
                 1 => k(&[p(0)]),
@@ -455,24 +528,26 @@ fn with_node(node: &Node, k: K<'_>) {
             k(&s)
         }
         Node::VecSlice(es) => {
-            let v: Vec<(Str, Value)> = es.iter().map(|(key, val)| (Str::new_ref(key), val.to_value())).collect();
+            let v: Vec<(Str, Value)> = es.iter().enumerate().map(|(i, (key, val))| (Str::new_ref(ar.kref(key, i + 1)), val.to_value())).collect();
             k(&&v[..])
         }
         Node::BTree(0, es) => k(&es.iter().cloned().collect::<BTreeMap<String, Val>>()),
-        Node::BTree(1, es) => k(&es.iter().map(|(a, b)| (a.as_str(), b)).collect::<BTreeMap<&str, &Val>>()),
+        Node::BTree(1, es) => k(&es.iter().enumerate().map(|(i, (a, b))| (ar.kref(a, i), b)).collect::<BTreeMap<&str, &Val>>()),
         Node::BTree(_, es) => k(&es
             .iter()
-            .map(|(a, b)| (Str::new_ref(a), b.to_value()))
+            .enumerate()
+            .map(|(i, (a, b))| (Str::new_ref(ar.kref(a, i + 1)), b.to_value()))
             .collect::<BTreeMap<Str, Value>>()),
         Node::Hash(0, es) => k(&es.iter().cloned().collect::<HashMap<String, Val>>()),
-        Node::Hash(1, es) => k(&es.iter().map(|(a, b)| (a.as_str(), b)).collect::<HashMap<&str, &Val>>()),
+        Node::Hash(1, es) => k(&es.iter().enumerate().map(|(i, (a, b))| (ar.kref(a, i), b)).collect::<HashMap<&str, &Val>>()),
         Node::Hash(_, es) => k(&es
             .iter()
-            .map(|(a, b)| (Str::new_ref(a), b.to_value()))
+            .enumerate()
+            .map(|(i, (a, b))| (Str::new_ref(ar.kref(a, i + 1)), b.to_value()))
             .collect::<HashMap<Str, Value>>()),
         Node::Macro(es) => {
             use emit::__private::__PrivateMacroProps as M;
-            let p = |i: usize| (Str::new_ref(&es[i].0), es[i].1.as_ref().map(|v| v.to_value()));
+            let p = |i: usize| (Str::new_ref(ar.kref(&es[i].0, i)), es[i].1.as_ref().map(|v| v.to_value()));
             match es.len() {
                 0 => k(&M::from_array([])),
                 1 => k(&M::from_array([p(0)])),
@@ -516,32 +591,71 @@ fn with_node(node: &Node, k: K<'_>) {
                 None => body(),
             }
         }
-        Node::OptSome(a) => with_node(a, &mut |p| k(&Some(p))),
+        Node::OptSome(a) => with_node(a, ar, &mut |p| k(&Some(p))),
         Node::OptNone => k(&None::<(&str, &Val)>),
-        Node::And(a, b) => with_node(a, &mut |pa| with_node(b, &mut |pb| k(&pa.and_props(pb)))),
-        Node::Boxed(false, a) => with_node(a, &mut |p| k(&Box::new(p))),
-        Node::Boxed(true, a) => with_node(a, &mut |p| {
+        Node::ArrayOf(kind, cs) => {
+            let kind = *kind;
+            match &cs[..] {
+                [] => match kind {
+                    0 => k(&([] as [&dyn ErasedProps; 0])),
+                    1 => {
+                        let s: &[&dyn ErasedProps] = &[];
+                        k(&s)
+                    }
+                    _ => k(&Vec::<Box<dyn ErasedProps>>::new().into_boxed_slice()),
+                },
+                [a] => with_node(a, ar, &mut |pa| match kind {
+                    0 => k(&[pa]),
+                    1 => {
+                        let arr = [pa];
+                        let s: &[&dyn ErasedProps] = &arr;
+                        k(&s)
+                    }
+                    _ => {
+                        let v: Vec<Box<dyn ErasedProps + '_>> = vec![Box::new(pa)];
+                        k(&&v[..])
+                    }
+                }),
+                [a, b, ..] => with_node(a, ar, &mut |pa| {
+                    with_node(b, ar, &mut |pb| match kind {
+                        0 => k(&[pa, pb]),
+                        1 => {
+                            let arr = [pa, pb];
+                            let s: &[&dyn ErasedProps] = &arr;
+                            k(&s)
+                        }
+                        _ => {
+                            let v: Vec<Box<dyn ErasedProps + '_>> = vec![Box::new(pa), Box::new(pb)];
+                            k(&&v[..])
+                        }
+                    })
+                }),
+            }
+        }
+        Node::And(a, b) => with_node(a, ar, &mut |pa| with_node(b, ar, &mut |pb| k(&pa.and_props(pb)))),
+        Node::Boxed(false, a) => with_node(a, ar, &mut |p| k(&Box::new(p))),
+        Node::Boxed(true, a) => with_node(a, ar, &mut |p| {
             let b: Box<dyn ErasedProps + '_> = Box::new(p);
             k(&b)
         }),
-        Node::Arced(false, a) => with_node(a, &mut |p| k(&Arc::new(p))),
-        Node::Arced(true, a) => with_node(a, &mut |p| {
+        Node::Arced(false, a) => with_node(a, ar, &mut |p| k(&Arc::new(p))),
+        Node::Arced(true, a) => with_node(a, ar, &mut |p| {
             let b: Arc<dyn ErasedProps + '_> = Arc::new(p);
             k(&b)
         }),
-        Node::Ref(a) => with_node(a, &mut |p| k(&&p)),
-        Node::Dedup(a) => with_node(a, &mut |p| k(Props::dedup(&p))),
-        Node::AsMap(a) => with_node(a, &mut |p| k(Props::as_map(&p))),
-        Node::Span(name, a) => with_node(a, &mut |p| k(&Span::new(MDL, name.as_str(), Empty, p))),
-        Node::Metric(name, agg, val, a) => with_node(a, &mut |p| {
-            k(&Metric::new(MDL, name.as_str(), agg.as_str(), Empty, val.to_value(), p))
+        Node::Ref(a) => with_node(a, ar, &mut |p| k(&&p)),
+        Node::Dedup(a) => with_node(a, ar, &mut |p| k(Props::dedup(&p))),
+        Node::AsMap(a) => with_node(a, ar, &mut |p| k(Props::as_map(&p))),
+        Node::Span(name, a) => with_node(a, ar, &mut |p| k(&Span::new(MDL, ar.kref(name, 1), Empty, p))),
+        Node::Metric(name, agg, val, a) => with_node(a, ar, &mut |p| {
+            k(&Metric::new(MDL, ar.kref(name, 0), ar.kref(agg, 3), Empty, val.to_value(), p))
         }),
         Node::Event {
             own,
             ambient,
             traceparent,
             view,
-        } => with_node(own, &mut |po| {
+        } => with_node(own, ar, &mut |po| {
             let evt = Event::new(MDL, Template::literal("c02"), Empty, po);
             if *traceparent {
                 let ctxt = TraceparentCtxt::new(tl());
@@ -599,6 +713,8 @@ struct Cx<'a> {
     /// what the violation signature names: root constructor / static shape / call site
     kind: &'a str,
     probes: &'a [String],
+    /// the case's shared key buffer ("" if keys are independent allocations)
+    buf: &'a str,
     case: &'a dyn Fn() -> Json,
 }
 
@@ -640,8 +756,10 @@ fn check_view<P: Props + ?Sized>(r: &mut Report, cx: &Cx, p: &P, view: &str) -> 
 
     // 1. enumerate once
     let mut list: Vec<(String, Fp)> = Vec::new();
+    let mut handed: Vec<Str> = Vec::new();
     let _ = p.for_each(|k, v| {
         list.push((k.get().to_string(), fp(&v)));
+        handed.push(k);
         ControlFlow::Continue(())
     });
     r.observe("entries-enumerated", list.len() as u64);
@@ -759,6 +877,57 @@ fn check_view<P: Props + ?Sized>(r: &mut Report, cx: &Cx, p: &P, view: &str) -> 
                     view,
                     format!("pull({:?}) disagrees: {} (enumerated: {:?})", k, bad.join("; "), show(&list)),
                 );
+            }
+        }
+    }
+
+    // 3b. lookups with keys that share storage with the collection's own keys: the `Str`s the
+    // visitor was handed, and (when the case has a shared key buffer) every occurrence of the
+    // probe's text inside that buffer. Keys are compared by content in the model.
+    {
+        let mut alias_lookup = |r: &mut Report, how: &str, key: Str, text: &str| {
+            let want = first.get(text).map(|i| &list[*i].1);
+            let got = p.get(key).map(|v| fp(&v));
+            r.observe("lookups-with-aliased-keys", 1);
+            if want != got.as_ref() {
+                viol(
+                    r,
+                    cx,
+                    "get-with-aliased-key-is-not-first-enumerated",
+                    view,
+                    format!(
+                        "get({:?}) with {} = {:?} but the first enumerated value for that text is {:?} (enumerated: {:?}, key buffer {:?})",
+                        text,
+                        how,
+                        got.map(|g| g.dbg),
+                        want.map(|w| &w.dbg),
+                        show(&list),
+                        cx.buf
+                    ),
+                );
+            }
+        };
+        let max_handed = if cx.buf.is_empty() { 4 } else { 12 };
+        let mut seen: BTreeSet<(usize, usize)> = BTreeSet::new();
+        for (i, k) in handed.iter().enumerate() {
+            // distinct (address, length) only
+            if seen.len() >= max_handed || !seen.insert((k.get().as_ptr() as usize, k.get().len())) {
+                continue;
+            }
+            alias_lookup(r, "the Str the visitor was handed", k.by_ref(), &list[i].0);
+        }
+        if !cx.buf.is_empty() && !tiny() {
+            for k in probes.iter() {
+                let n = cx.buf.match_indices(k.as_str()).count();
+                for nth in [0, n.saturating_sub(1)] {
+                    if let Some((at, _)) = cx.buf.match_indices(k.as_str()).nth(nth) {
+                        let slice = &cx.buf[at..at + k.len()];
+                        alias_lookup(r, "a slice of the shared key buffer", Str::new_ref(slice), k);
+                    }
+                    if n <= 1 {
+                        break;
+                    }
+                }
             }
         }
     }
@@ -898,10 +1067,19 @@ fn note_facts(r: &mut Report, f: &Facts, shape: &str) {
 }
 
 /// Check a dynamic tree; violations are reported against the smallest failing subtree.
-fn check_tree(r: &mut Report, node: &Node, probes: &[String], case: &dyn Fn() -> Json) {
+fn check_tree(r: &mut Report, node: &Node, ar: &Arena, probes: &[String], case: &dyn Fn() -> Json) {
     r.eval();
     let mut scratch = r.child();
-    let facts = run_tree(&mut scratch, node, probes, case);
+    let facts = run_tree(&mut scratch, node, ar, probes, case);
+    if ar.aliased() {
+        scratch.observe("collections-with-keys-borrowed-from-one-buffer", 1);
+    }
+    fn short_container(n: &Node) -> bool {
+        matches!(n, Node::ArrayOf(_, cs) if cs.len() <= 1) || n.children().iter().any(|c| short_container(c))
+    }
+    if short_container(node) {
+        scratch.observe("trees-with-a-0-or-1-element-container-of-collections", 1);
+    }
     if scratch.violations.is_empty() {
         let mut shape = String::new();
         node.shape(&mut shape);
@@ -921,7 +1099,7 @@ fn check_tree(r: &mut Report, node: &Node, probes: &[String], case: &dyn Fn() ->
     'descend: loop {
         for c in culprit.children() {
             let mut s = r.child();
-            run_tree(&mut s, c, probes, case);
+            run_tree(&mut s, c, ar, probes, case);
             if !s.violations.is_empty() {
                 culprit = c;
                 report = s;
@@ -933,7 +1111,7 @@ fn check_tree(r: &mut Report, node: &Node, probes: &[String], case: &dyn Fn() ->
     r.merge(report);
 }
 
-fn run_tree(r: &mut Report, node: &Node, probes: &[String], case: &dyn Fn() -> Json) -> Option<Facts> {
+fn run_tree(r: &mut Report, node: &Node, ar: &Arena, probes: &[String], case: &dyn Fn() -> Json) -> Option<Facts> {
     let kind = node.tag();
     let sub = format!("{:?}", node);
     let case2 = || {
@@ -946,12 +1124,13 @@ fn run_tree(r: &mut Report, node: &Node, probes: &[String], case: &dyn Fn() -> J
     let cx = Cx {
         kind,
         probes,
+        buf: &ar.buf,
         case: &case2,
     };
     let mut facts = None;
     let mut calls = 0;
     let res = catch(|| {
-        with_node(node, &mut |p| {
+        with_node(node, ar, &mut |p| {
             calls += 1;
             // `p` is `&dyn ErasedProps`: check the unsized view, then every view of the reference
             check_view::<dyn ErasedProps>(r, &cx, p, "dyn");
@@ -1004,6 +1183,9 @@ struct Env {
     sc: SpanCtxt,
     frames: Vec<Vec<Entry>>,
     dup_sig: Vec<usize>,
+    /// the shared key buffer of the aliased shapes and eight (start, end) key ranges into it
+    arena: Arena,
+    ak: Vec<(usize, usize)>,
 }
 
 impl Env {
@@ -1031,7 +1213,23 @@ impl Env {
         let frames = (0..2).map(|_| x.distinct_entries(3)).collect();
         // which positions repeat an earlier key: part of the distinct-shape signature
         let dup_sig = (0..e.len()).map(|i| e[..i].iter().position(|p| p.0 == e[i].0).unwrap_or(i)).collect();
+        // keys that are slices of one buffer: the ancestors of a dotted path first (all start at
+        // the same address), then seeded prefixes / suffixes / infixes
+        let mut arena = Arena::new(&mut x.g);
+        while arena.buf.len() < 3 {
+            arena.buf.push_str(".ab");
+        }
+        let b = arena.boundaries();
+        let mut ak: Vec<(usize, usize)> = vec![(0, 0), (0, b[1]), (0, arena.buf.find('.').unwrap_or(b[1])), (0, arena.buf.len())];
+        while ak.len() < 8 {
+            let start = if x.g.chance(1, 2) { 0 } else { x.g.usize(b.len()) };
+            let end = start + x.g.usize(b.len() - start);
+            ak.push((b[start], b[end]));
+        }
+        x.g.shuffle(&mut ak);
         Env {
+            arena,
+            ak,
             sc: span_ctxt_of(
                 x.g.bool().then_some(5),
                 x.g.bool().then_some(6),
@@ -1056,12 +1254,23 @@ impl Env {
         &self.e[i].1
     }
 
+    /// The i-th aliased key: a slice of the shared buffer.
+    fn a(&self, i: usize) -> &str {
+        let (s, e) = self.ak[i];
+        &self.arena.buf[s..e]
+    }
+
+    fn ap(&self, i: usize) -> (&str, &Val) {
+        (self.a(i), &self.e[i].1)
+    }
+
     fn probes(&self) -> Vec<String> {
         let (wk, nv) = if tiny() { (3, 1) } else { (WELL_KNOWN.len(), NEVER.len()) };
         self.e
             .iter()
             .map(|(k, _)| k.clone())
             .chain(self.dk.iter().cloned())
+            .chain((0..self.ak.len()).map(|i| self.a(i).to_string()))
             .chain(WELL_KNOWN.iter().rev().take(wk).map(|s| s.to_string()))
             .chain(NEVER.iter().take(nv).map(|s| s.to_string()))
             .collect()
@@ -1112,6 +1321,7 @@ fn static_shapes(r: &mut Report, e: &Env, only: Option<&str>, case: &dyn Fn() ->
                 let cx = Cx {
                     kind: name,
                     probes: &probes,
+                    buf: &e.arena.buf,
                     case: &case2,
                 };
                 r.eval();
@@ -1119,6 +1329,9 @@ fn static_shapes(r: &mut Report, e: &Env, only: Option<&str>, case: &dyn Fn() ->
                     let v = $v;
                     check_all(r, &cx, &v)
                 });
+                if name.starts_with("aliased-") {
+                    r.observe("collections-with-keys-borrowed-from-one-buffer", 1);
+                }
                 match res {
                     Ok(f) => note_facts(r, &f, &format!("{}:{:?}", name, e.dup_sig)),
                     Err(msg) => viol(r, &cx, "panic", "any", format!("panicked: {}", msg)),
@@ -1195,6 +1408,89 @@ fn static_shapes(r: &mut Report, e: &Env, only: Option<&str>, case: &dyn Fn() ->
     sh!("array-of-options", [Some(e.p(0)), None, Some(e.p(1)), Some(e.p(2))]);
     sh!("array-of-arrays", [[e.p(0), e.p(1)], [e.p(2), e.p(3)], [e.p(4), e.p(5)]]);
     sh!("array-of-ands", [e.p(0).and_props(e.p(1)), e.p(2).and_props(e.p(3))]);
+
+    // short outer containers whose single element is a collection that repeats keys
+    // (`e.e` has eight entries over at most six keys, so the slices below do)
+    sh!("array0-of-slices", [] as [&[Entry]; 0]);
+    sh!("array1-of-dup-slice", [&e.e[..]]);
+    sh!("array2-of-dup-slices", [&e.e[..4], &e.e[4..]]);
+    sh!("array1-of-overlapping-and", [e.p(0).and_props((e.e[0].0.as_str(), e.v(1)))]);
+    sh!("array1-of-array2-same-key", [[e.p(0), (e.e[0].0.as_str(), e.v(1))]]);
+    sh!("array1-of-array1-of-dup-slice", [[&e.e[..]]]);
+    sh!("array1-of-unique-btree", [&e.bt]);
+    sh!("array1-of-pair", [e.p(0)]);
+    {
+        let inner = [[e.p(0), (e.e[0].0.as_str(), e.v(1)), e.p(2)]];
+        sh!("slice1-of-dup-arrays", &inner[..]);
+        sh!("slice0-of-arrays", &inner[..0]);
+        let dyns: [&dyn ErasedProps; 1] = [&inner];
+        sh!("array1-of-dyn", dyns);
+        sh!("slice1-of-dyn", &dyns[..]);
+    }
+    sh!("vec1-of-dup-slices", vec![&e.e[..]].into_boxed_slice());
+    sh!("vec1-of-vec-of-pairs", {
+        let inner: Vec<(&str, &Val)> = vec![e.p(0), (e.e[0].0.as_str(), e.v(1))];
+        vec![inner.into_boxed_slice()].into_boxed_slice()
+    });
+    sh!("box-array1-of-dup-slice", Box::new([&e.e[..]]));
+    sh!("some-array1-of-dup-slice", Some([&e.e[..]]));
+    sh!("array1-of-dup-slice-and-pair", [&e.e[..]].and_props(e.p(0)));
+    sh!("span-over-array1-of-dup-slice", Span::new(MDL, "s", Empty, [&e.e[..]]));
+
+    // keys borrowed from one shared buffer (same start address with different lengths, suffixes,
+    // infixes, the same text at different addresses); lookups also use slices of that buffer
+    sh!("aliased-pair", e.ap(0));
+    sh!("aliased-pair-str", (Str::new_ref(e.a(1)), e.v(1).to_value()));
+    sh!("aliased-array-8", [e.ap(0), e.ap(1), e.ap(2), e.ap(3), e.ap(4), e.ap(5), e.ap(6), e.ap(7)]);
+    sh!("aliased-array-reversed", [e.ap(7), e.ap(6), e.ap(5), e.ap(4), e.ap(3), e.ap(2), e.ap(1), e.ap(0)]);
+    sh!("aliased-vec-slice-of-str-value", {
+        let v: Vec<(Str, Value)> = (0..8).map(|i| (Str::new_ref(e.a(i)), e.v(i).to_value())).collect();
+        v.into_boxed_slice()
+    });
+    sh!("aliased-and-chain", e.ap(0).and_props(e.ap(1)).and_props(e.ap(2)).and_props(e.ap(3)));
+    sh!("aliased-and-right-nested", e.ap(4).and_props(e.ap(5).and_props(e.ap(6).and_props(e.ap(7)))));
+    sh!("aliased-btreemap-str-keys", (0..8).map(|i| e.ap(i)).collect::<BTreeMap<&str, &Val>>());
+    sh!("aliased-btreemap-Str-keys", (0..8).map(|i| (Str::new_ref(e.a(i)), e.v(i).to_value())).collect::<BTreeMap<Str, Value>>());
+    sh!("aliased-hashmap-str-keys", (0..8).map(|i| e.ap(i)).collect::<HashMap<&str, &Val>>());
+    sh!("aliased-hashmap-Str-keys", (0..8).map(|i| (Str::new_ref(e.a(i)), e.v(i).to_value())).collect::<HashMap<Str, Value>>());
+    sh!("aliased-array-and-owned-slice", [e.ap(0), e.ap(1), e.ap(2)].and_props(&e.e[..]));
+    sh!("aliased-owned-copies-then-array", {
+        // the same texts once in independent allocations, once as slices of the buffer
+        let owned: Vec<(String, &Val)> = (4..8).map(|i| (e.a(i).to_string(), e.v(i))).collect();
+        owned.into_boxed_slice().and_props([e.ap(0), e.ap(1), e.ap(2), e.ap(3)])
+    });
+    sh!("aliased-box-dyn", {
+        let b: Box<dyn ErasedProps + '_> = Box::new([e.ap(0), e.ap(1), e.ap(2), e.ap(3)]);
+        b
+    });
+    sh!("aliased-arc-some", Arc::new(Some([e.ap(3), e.ap(2), e.ap(1)])));
+    sh!("aliased-span-named-by-slice", Span::new(MDL, e.a(1), Empty, [e.ap(0), e.ap(1), e.ap(2)]));
+    sh!("aliased-metric-named-by-slices", Metric::new(MDL, e.a(2), e.a(3), Empty, 1, [e.ap(2), e.ap(3)]));
+    sh!("aliased-array1-of-slice", {
+        let inner: Vec<(&str, &Val)> = (0..8).map(|i| e.ap(i)).collect();
+        [inner.into_boxed_slice()]
+    });
+    {
+        // macro-built collections need distinct names: the distinct texts among the aliased keys
+        let mut idx: Vec<usize> = Vec::new();
+        for i in 0..8 {
+            if !idx.iter().any(|j| e.a(*j) == e.a(i)) {
+                idx.push(i);
+            }
+        }
+        let m = |i: usize| (Str::new_ref(e.a(idx[i % idx.len()])), Some(e.v(i).to_value()));
+        match idx.len() {
+            1 => sh!("aliased-macro-props", M::from_array([m(0)])),
+            2 => sh!("aliased-macro-props", M::from_array([m(0), m(1)])),
+            3 => sh!("aliased-macro-props", M::from_array([m(0), m(1), m(2)])),
+            _ => sh!("aliased-macro-props", M::from_array([m(3), m(0), m(2), m(1)])),
+        }
+    }
+    {
+        let a = [e.ap(0), e.ap(1), e.ap(2), e.ap(3), e.ap(4)];
+        sh!("aliased-dedup-and-pair", a.dedup().and_props(e.ap(5)));
+        sh!("aliased-as-map", a.as_map().and_props(e.ap(6)));
+    }
     sh!("slice-of-btrees", vec![e.bt.clone(), e.bt.clone()].into_boxed_slice());
     sh!(
         "macro-props-3",
@@ -1256,6 +1552,7 @@ fn static_shapes(r: &mut Report, e: &Env, only: Option<&str>, case: &dyn Fn() ->
                     let cx = Cx {
                         kind: name,
                         probes: &probes,
+                        buf: &e.arena.buf,
                         case: &case2,
                     };
                     r.eval();
@@ -1333,6 +1630,7 @@ fn site_props<P: Props>(r: &mut Report, site: &Site, p: &P) -> Vec<(String, Fp)>
     let cx = Cx {
         kind: &kind,
         probes: &probes,
+        buf: "",
         case: &case,
     };
     let f = check_all(r, &cx, p);
@@ -1389,6 +1687,7 @@ fn site_event<P: Props>(r: &mut Report, site: &Site, evt: &Event<P>, msg: &str, 
     let cx = Cx {
         kind: &kind,
         probes: &[],
+        buf: "",
         case: &case,
     };
     let mut want = String::new();
@@ -1694,8 +1993,21 @@ fn dynamic_case(r: &mut Report, seed: u64, i: u64) {
         .chain((0..extra).map(|_| x.g.pick(POOL).to_string()))
         .collect();
     let text = format!("{:?}", node);
-    let case = || json!({"section": "dynamic", "seed": seed, "index": i, "tree": text});
-    check_tree(r, &node, &probes, &case);
+    let arena = x.arena.clone();
+    // with a shared key buffer: also probe the ancestors of the dotted path and a few more slices
+    let mut probes = probes;
+    if arena.aliased() {
+        for (at, _) in arena.buf.match_indices('.') {
+            probes.push(arena.buf[..at].to_string());
+        }
+        probes.push(arena.buf.clone());
+        probes.push(String::new());
+        for _ in 0..3 {
+            probes.push(arena.slice(&mut x.g).to_string());
+        }
+    }
+    let case = || json!({"section": "dynamic", "seed": seed, "index": i, "tree": text, "key_buffer": arena.buf});
+    check_tree(r, &node, &arena, &probes, &case);
 }
 
 fn static_case(r: &mut Report, seed: u64, i: u64, only: Option<&str>) {
@@ -1742,7 +2054,7 @@ fn main() {
     if miri {
         set_stride(16, seed);
     }
-    let n_static = if miri { 1 } else { args.n(1_500, 40_000) };
+    let n_static = if miri { 1 } else { args.n(1_000, 30_000) };
     par_cases(&mut r, &args, n_static, |i, r| static_case(r, seed, i, None));
 
     // 3. dynamic trees
